@@ -6,6 +6,7 @@
 //   bounded=1 cap=N big=1 (136-byte elements: one per page)  pre=N (push+pop N items first: advances tickets/pages)
 //   keep=N (N items in the queue when the window opens)  throwat=K (K-th element copy inside the window throws)
 #include <oneapi/tbb/concurrent_queue.h>
+#include <oneapi/tbb/cache_aligned_allocator.h>
 #include "vfh.h"
 #include <deque>
 #include <sstream>
@@ -15,10 +16,18 @@ static int g_copies = 0, g_throwat = 0; static bool g_arm = false;
 struct Thrown { int v; };
 template <int PAD> struct Elem {
     int v; char pad[PAD];
+    // element contents are announced to the happens-before oracle (-hb): whoever pops an element must see what its pusher wrote
     Elem(int x = 0) : v(x) { memset(pad, 0x5a, PAD); }
-    Elem(const Elem& o) : v(o.v) { memcpy(pad, o.pad, PAD); if (g_arm && ++g_copies == g_throwat) throw Thrown{v}; }
-    Elem& operator=(const Elem& o) { v = o.v; return *this; }
+    Elem(const Elem& o) : v(o.v) { vf_plain_read(&o.v); vf_plain_write(&v); memcpy(pad, o.pad, PAD); if (g_arm && ++g_copies == g_throwat) throw Thrown{v}; }
+    Elem& operator=(const Elem& o) { vf_plain_read(&o.v); vf_plain_write(&v); v = o.v; return *this; }
+    ~Elem() { vf_plain_write(&v); }
 };
+// -p allocfail=K : the K-th memory allocation of the queue inside the window (its pages) throws std::bad_alloc
+static int g_allocs = 0, g_allocfail = 0;
+template <class T> struct FailAlloc { using value_type = T; FailAlloc() {} template <class U> FailAlloc(const FailAlloc<U>&) {}
+    T* allocate(size_t n) { if (g_arm && g_allocfail && ++g_allocs == g_allocfail) throw std::bad_alloc(); return tbb::cache_aligned_allocator<T>().allocate(n); }
+    void deallocate(T* p, size_t n) { tbb::cache_aligned_allocator<T>().deallocate(p, n); }
+    template <class U> bool operator==(const FailAlloc<U>&) const { return true; } template <class U> bool operator!=(const FailAlloc<U>&) const { return false; } };
 enum { K_PUSH, K_TRYPUSH, K_TRYPOP, K_POP, K_ABORT, K_SETCAP };
 static const char* const NAMES[] = {"push", "try_push", "try_pop", "pop", "abort", "set_capacity"};
 static const long R_EMPTY = -1, R_ABORTED = -2, R_THREW = -3;
@@ -97,8 +106,8 @@ template <class Q, class E, bool BOUNDED> struct Run {
     template <bool B = BOUNDED> typename std::enable_if<B, long>::type do_op(Step s, int me, bool& aborter) {
         E e;
         switch (s.kind) {
-        case K_PUSH: try { q.push(E((int)s.arg)); return 0; } catch (tbb::user_abort&) { return R_ABORTED; } catch (Thrown&) { return R_THREW; }
-        case K_TRYPUSH: try { return q.try_push(E((int)s.arg)) ? 1 : 0; } catch (Thrown&) { return R_THREW; }
+        case K_PUSH: try { q.push(E((int)s.arg)); return 0; } catch (tbb::user_abort&) { return R_ABORTED; } catch (Thrown&) { return R_THREW; } catch (std::bad_alloc&) { return R_THREW; }
+        case K_TRYPUSH: try { return q.try_push(E((int)s.arg)) ? 1 : 0; } catch (Thrown&) { return R_THREW; } catch (std::bad_alloc&) { return R_THREW; }
         case K_TRYPOP: return q.try_pop(e) ? e.v : R_EMPTY;
         case K_POP: try { q.pop(e); return e.v; } catch (tbb::user_abort&) { return R_ABORTED; }
         case K_ABORT: aborter = true; q.abort(); return 0;
@@ -107,7 +116,7 @@ template <class Q, class E, bool BOUNDED> struct Run {
     template <bool B = BOUNDED> typename std::enable_if<!B, long>::type do_op(Step s, int me, bool& aborter) {
         E e;
         switch (s.kind) {
-        case K_PUSH: try { q.push(E((int)s.arg)); return 0; } catch (Thrown&) { return R_THREW; }
+        case K_PUSH: try { q.push(E((int)s.arg)); return 0; } catch (Thrown&) { return R_THREW; } catch (std::bad_alloc&) { return R_THREW; }
         case K_TRYPOP: return q.try_pop(e) ? e.v : R_EMPTY;
         default: vf_fail("operation not available on concurrent_queue"); }
         return 0; }
@@ -124,7 +133,7 @@ template <class Q, class E, bool BOUNDED> struct Run {
         QModel m; m.cap = cap; g_bounded = BOUNDED; g_log = &log; vf_on_stuck(explain_stuck);
         for (long i = 0; i < keep; i++) { do_op({BOUNDED ? K_TRYPUSH : K_PUSH, 500 + i}, 0, aborter); m.q.push_back(500 + i); }
         g_rinit.q = m.q; g_rinit.cap = cap;
-        g_throwat = (int)vf_param_int("throwat", 0); g_arm = g_throwat > 0; g_copies = 0;
+        g_throwat = (int)vf_param_int("throwat", 0); g_allocfail = (int)vf_param_int("allocfail", 0); g_arm = g_throwat > 0 || g_allocfail > 0; g_copies = 0; g_allocs = 0;
         vf_liveness(1);
         std::vector<int> ids = gated(nthreads, nullptr, [&](int i) { thread_body(progs[i], i); });
         open_window_and_join(ids);
@@ -147,6 +156,7 @@ template <class Q, class E, bool BOUNDED> struct Run {
 
 static void scenario() {
     bool bounded = vf_param_int("bounded", 0), big = vf_param_int("big", 0);
+    if (vf_param_int("allocfail", 0)) { if (!bounded) { Run<tbb::concurrent_queue<Elem<132>, FailAlloc<Elem<132>>>, Elem<132>, false> r; r.go(); } else { Run<tbb::concurrent_bounded_queue<Elem<132>, FailAlloc<Elem<132>>>, Elem<132>, true> r; r.go(); } return; }
     if (!bounded && !big) { Run<tbb::concurrent_queue<Elem<4>>, Elem<4>, false> r; r.go(); }
     else if (!bounded && big) { Run<tbb::concurrent_queue<Elem<132>>, Elem<132>, false> r; r.go(); }
     else if (bounded && !big) { Run<tbb::concurrent_bounded_queue<Elem<4>>, Elem<4>, true> r; r.go(); }
